@@ -138,3 +138,9 @@ Proof.
   - reflexivity.
   - now rewrite Hv, IH.
 Qed.
+
+(** a notification call (ServerProxy._request_notify) surfaces whatever check_for_errors raises on the
+    reply a server may still send, and returns None otherwise *)
+Theorem notify_surfaces r :
+  c06_run PNotify r = [match check_for_errors r with Ok _ => Ok VNone | Raise e => Raise e end].
+Proof. unfold c06_run. destruct (check_for_errors r); reflexivity. Qed.
